@@ -22,7 +22,9 @@ TECHNIQUE = "stateless exploration (DFS, prefix replay) of every interleaving of
 RULE = (
     "root task + 1-2 tasks started by ctx.spawn / create_task at every position of the starter's "
     "script; scripts = all well-nested sequences up to length L over {enter (sync scope [A], "
-    "update [A], async scope [A], update [R]), exit}; probe after every step; every interleaving; "
+    "update [A, A'], async scope [A], update [R]), exit, use a shared prepared update}; sub-families: updates whose "
+    "states are value-equal across tasks ([A, R] together / [A] alone), and an update supplying the very instance the "
+    "shared prepared update supplies; probe after every step; every interleaving; "
     "non-trivial = two tasks are alive at the same time and at least one of them enters a block "
     "after the other was started"
 )
@@ -41,7 +43,11 @@ SAMPLE_EVERY = {"quick": 9000, "thorough": 300000}
 BLOCKS = [("sscope", "A"), ("updated", "A"), ("ascope", "A"), ("updated", "R"), ("prepared", "R"), None,
           # ops 6 / 7 (family "equal" only): updates whose states are VALUE-EQUAL across tasks and
           # uses (fresh instances with the same field values): [A, R] together, and [A] alone
-          ("updated", "AR="), ("updated", "A=")]
+          ("updated", "AR="), ("updated", "A="),
+          # op 8 (family "same-instance"): an update supplying the very instance the shared prepared
+          # update (op 5) supplies - so that the shared update is entered where its element is
+          # already current
+          ("updated", "R!")]
 # op 5 = "use the shared prepared update": `with prepared_update: probe` in one step (no suspension
 # inside, so uses never overlap); the object was built by the root at its start and may be used by
 # every task, any number of times - each use must sit on top of the *user's* current state
@@ -50,7 +56,7 @@ BLOCKS = [("sscope", "A"), ("updated", "A"), ("ascope", "A"), ("updated", "R"), 
 # entered in another must still sit on top of the state of the task that enters it
 
 
-def scripts(L: int, with_prepared: bool = False, allowed: tuple | None = None):
+def scripts(L: int, with_prepared: bool = False, allowed: tuple | None = None, shared: bool = False):
     """well-nested op sequences of length <= L; op = block index (enter) or -1 (exit)"""
     out = [[]]
 
@@ -63,7 +69,7 @@ def scripts(L: int, with_prepared: bool = False, allowed: tuple | None = None):
             s = [*prefix, b]
             out.append(s)
             go(s, depth + 1)
-        if prefix.count(5) < 1 and allowed is None:
+        if prefix.count(5) < 1 and (allowed is None or shared):
             s = [*prefix, 5]
             out.append(s)
             go(s, depth)
@@ -96,6 +102,14 @@ def programs(tier: str):
     for root in eq:
         for child in eq:
             if not any(op in (6, 7) for op in root + child):
+                continue
+            for pos in range(len(root) + 1):
+                for how in ("spawn", "create"):
+                    yield {"scripts": [root, child], "starts": [[0, pos, how]]}
+    same = scripts(2, allowed=(3, 8), shared=True)
+    for root in same:
+        for child in same:
+            if 5 not in root + child or 8 not in root + child:
                 continue
             for pos in range(len(root) + 1):
                 for how in ("spawn", "create"):
@@ -221,7 +235,9 @@ def execute(program, ch: Chooser) -> Result:  # noqa: C901, PLR0915
                 kind, sup = BLOCKS[op]
                 label = f"t{tid}b{next(counter)}"
                 # the update block supplies two instances of its type in one call (the last wins)
-                if sup in ("AR=", "A="):
+                if sup == "R!":
+                    states = list(prepared["upd_states"])
+                elif sup in ("AR=", "A="):
                     from hv.ctxkit import A as _A, R as _R
 
                     states = [_A(tag="fixed")] + ([_R(x=1, tag="fixed")] if sup == "AR=" else [])
@@ -244,7 +260,7 @@ def execute(program, ch: Chooser) -> Result:  # noqa: C901, PLR0915
                     cm = ctx.updated(*states)
                     cm.__enter__()
                 open_cms.append((kind, cm, in_scope, soft))
-                env.append({"A": "fixed", "R": "fixed"} if sup == "AR=" else ({"A": "fixed"} if sup == "A=" else {sup: states[-1].tag}))
+                env.append({"R": states[0].tag} if sup == "R!" else {"A": "fixed", "R": "fixed"} if sup == "AR=" else ({"A": "fixed"} if sup == "A=" else {sup: states[-1].tag}))
                 if kind == "updated":
                     soft = soft or not in_scope
                 else:
